@@ -103,6 +103,11 @@ def known_match(kf_list, pid, ob=None, witness=None):
 def main(argv):
     pid = argv[1]
     tier = argv[2] if len(argv) > 2 else os.environ.get("VERIF_TIER", "quick")
+    if tier == "thorough":
+        # deeper budgets: infeasible branches are pruned with a longer solver budget (fewer spurious paths when the machine
+        # is busy) and a contract may explore for longer before it is declared out of reach
+        os.environ.setdefault("VERIF_PRUNE_MS", "500")
+        os.environ.setdefault("VERIF_EXPLORE_SECONDS", "900")
     seed = int(os.environ.get("VERIF_SEED", "0") or 0)
     t_start = time.time()
     cfg = P.PROPS[pid]
